@@ -181,6 +181,8 @@ type vUmFake struct {
 	writes []string     // destinations seen by the socket
 	reads  atomic.Int64 // calls of ReadFrom / ReadFromAddrPort so far
 	delay  func()       // concurrent mode: jitter in WriteTo
+	// onWrite, if set, sees every datagram written to the socket (udpmuxuni: the discovery requests)
+	onWrite func(b []byte, addr net.Addr)
 }
 
 func newVUmFake(local *net.UDPAddr) *vUmFake {
@@ -209,6 +211,9 @@ func (f *vUmFake) WriteTo(b []byte, addr net.Addr) (int, error) {
 	f.mu.Lock()
 	f.writes = append(f.writes, addr.String())
 	f.mu.Unlock()
+	if f.onWrite != nil {
+		f.onWrite(b, addr)
+	}
 	return len(b), nil
 }
 func (f *vUmFake) Close() error                     { f.once.Do(func() { close(f.closed) }); return nil }
@@ -264,6 +269,8 @@ type vUmSess struct {
 	conns   [][]*udpMuxedConn // per mux, in order of first appearance
 	fed     map[string]int    // payload bytes -> pid
 	o       *vOut
+	// ext, if set, runs every operation of the session (component udpmuxuni wraps baseOp)
+	ext func(t []string) string
 }
 
 var vUmCur *vUmSess
@@ -462,6 +469,44 @@ func (s *vUmSess) handle(tok string) *vUmHandle {
 }
 
 func (s *vUmSess) op(t []string) string {
+	if s.ext != nil {
+		return s.ext(t)
+	}
+	return s.baseOp(t)
+}
+
+// feedOne hands one datagram to the worker of mux mi, waits for quiescence and names the connections whose
+// FIFO grew ("none" if no FIFO did).
+func (s *vUmSess) feedOne(mi int, data []byte, a vUmAddr) string {
+	before := map[*udpMuxedConn]int{}
+	for i := range s.muxes {
+		for _, c := range s.conns[i] {
+			before[c] = vUmQueueLen(c)
+		}
+	}
+	select {
+	case s.fakes[mi].feed <- vUmDgram{data: data, src: a}:
+	case <-s.fakes[mi].closed:
+		return "none"
+	}
+	synctest.Wait()
+	var got []string
+	for i := range s.muxes {
+		for _, c := range s.conns[i] {
+			if d := vUmQueueLen(c) - before[c]; d == 1 {
+				got = append(got, s.connName(c))
+			} else if d != 0 {
+				got = append(got, fmt.Sprintf("%s%+d", s.connName(c), d))
+			}
+		}
+	}
+	if len(got) == 0 {
+		return "none"
+	}
+	return strings.Join(got, "+")
+}
+
+func (s *vUmSess) baseOp(t []string) string {
 	switch t[1] {
 	case "new":
 		if len(t) != 4 {
@@ -581,38 +626,17 @@ func (s *vUmSess) op(t []string) string {
 			s.o.stat("in.muxclosed")
 			return "none"
 		}
-		before := map[*udpMuxedConn]int{}
-		for i := range s.muxes {
-			for _, c := range s.conns[i] {
-				before[c] = vUmQueueLen(c)
-			}
-		}
-		select {
-		case s.fakes[mi].feed <- vUmDgram{data: data, src: a}:
-		case <-s.fakes[mi].closed:
-			return "none"
-		}
-		synctest.Wait()
-		var got []string
-		for i := range s.muxes {
-			for _, c := range s.conns[i] {
-				if d := vUmQueueLen(c) - before[c]; d == 1 {
-					got = append(got, s.connName(c))
-				} else if d != 0 {
-					got = append(got, fmt.Sprintf("%s%+d", s.connName(c), d))
-				}
-			}
-		}
+		res := s.feedOne(mi, data, a)
 		kind := t[4]
 		if i := strings.Index(kind, ":"); i >= 0 {
 			kind = kind[:i]
 		}
-		if len(got) == 0 {
+		if res == "none" {
 			s.o.stat("in." + kind + ".none")
 			return "none"
 		}
 		s.o.stat("in." + kind + ".delivered")
-		return strings.Join(got, "+")
+		return res
 	case "remove":
 		if len(t) != 3 || !strings.HasPrefix(t[2], "u:") {
 			return "bad-op"
